@@ -116,6 +116,15 @@ pub fn cmd_slots_replay(args: &HashMap<String, String>) -> i32 {
             }
             tm.real.push(255);
             let mut pending: Vec<(u8, Operation<Vec<u8>, Vec<u8>>)> = Vec::new();
+            // records written and not yet synced: (log file, its length before the record was appended)
+            let mut unsynced: Vec<(std::path::PathBuf, u64)> = Vec::new();
+            let log_sizes = |d: &std::path::Path| -> Vec<(std::path::PathBuf, u64)> {
+                let mut v: Vec<(std::path::PathBuf, u64)> = std::fs::read_dir(d).map(|rd| rd.flatten()
+                    .filter(|e| e.file_name().to_string_lossy().starts_with("log"))
+                    .map(|e| (e.path(), e.metadata().map(|m| m.len()).unwrap_or(0))).collect()).unwrap_or_default();
+                v.sort();
+                v
+            };
             for (i, st) in steps.iter().enumerate() {
                 let a = st["a"].as_str().unwrap();
                 let x = &st["x"];
@@ -134,10 +143,19 @@ pub fn cmd_slots_replay(args: &HashMap<String, String>) -> i32 {
                     },
                     "end" => {
                         let ops = std::mem::take(&mut pending);
+                        let before = log_sizes(&dir);
                         catch(|| db.commit_changes(ops)).map_err(|p| at(&format!("panic in commit: {p}")))?.map_err(|e| at(&format!("commit: {e}")))?;
                         catch(|| db.process_commits()).map_err(|p| at(&format!("panic in process_commits: {p}")))?.map_err(|e| at(&format!("process_commits: {e}")))?;
+                        let after = log_sizes(&dir);
+                        let grown: Vec<&(std::path::PathBuf, u64)> = after.iter().filter(|(p, l)| before.iter().find(|(q, _)| q == p).map(|(_, m)| *m).unwrap_or(0) < *l).collect();
+                        if grown.len() != 1 {
+                            return Err(format!("harness: {} log files grew while one record was appended", grown.len()))
+                        }
+                        let was = before.iter().find(|(q, _)| *q == grown[0].0).map(|(_, m)| *m).unwrap_or(0);
+                        unsynced.push((grown[0].0.clone(), was));
                     },
                     "enact" => {
+                        unsynced.clear();
                         db.flush_logs().map_err(|e| at(&format!("flush_logs: {e}")))?;
                         let mut done = false;
                         for _ in 0..6 {
@@ -151,6 +169,7 @@ pub fn cmd_slots_replay(args: &HashMap<String, String>) -> i32 {
                         }
                     },
                     "clean" => {
+                        unsynced.clear();
                         db.flush_logs().map_err(|e| at(&format!("flush_logs: {e}")))?;
                         db.clean_logs().map_err(|e| at(&format!("clean_logs: {e}")))?;
                     },
@@ -159,6 +178,20 @@ pub fn cmd_slots_replay(args: &HashMap<String, String>) -> i32 {
                         let img = fresh_dir(&root, &format!("sl{idx}_c{i}"));
                         copy_dir(&dir, &img).map_err(|e| at(&format!("image: {e}")))?;
                         let _ = std::fs::remove_file(img.join("lock"));
+                        // power loss: the last j records, written and never synced, are gone from the log file
+                        let j = st["k"].as_u64().unwrap_or(0) as usize;
+                        if j > 0 {
+                            if j > unsynced.len() {
+                                return Err(format!("harness: the specification loses {j} unsynced records, {} are known", unsynced.len()))
+                            }
+                            let (path, len) = unsynced[unsynced.len() - j].clone();
+                            if unsynced[unsynced.len() - j..].iter().any(|(p, _)| *p != path) {
+                                return Err("harness: the unsynced records are spread over several log files".into())
+                            }
+                            let f = std::fs::OpenOptions::new().write(true).open(img.join(path.file_name().unwrap())).map_err(|e| at(&format!("image log: {e}")))?;
+                            f.set_len(len).map_err(|e| at(&format!("image log: {e}")))?;
+                        }
+                        unsynced.clear();
                         let old = std::mem::replace(&mut db, catch(|| Db::open(&mk_opts(&img))).map_err(|p| at(&format!("panic in open: {p}")))?.map_err(|e| at(&format!("open after crash: {e}")))?);
                         std::mem::forget(old);
                         dir = img;
